@@ -551,12 +551,55 @@ Definition pop_wf (po : pop) : Prop :=
   | None => op_args_wf (po_op po)
   end.
 
+Theorem relate_self_wf l a t l' : wf l -> relate_self_at l a t = Ok l' -> wf l'.
+Proof.
+  intros [Hn [Hc Hr]]. unfold relate_self_at.
+  destruct (has l a) eqn:Ha; simpl; [|discriminate]. intros H. injection H as <-.
+  apply mem_In in Ha.
+  set (N := fun i => In i (ids l)).
+  split; [|split]; [exact Hn| |exact Hr].
+  unfold ids; simpl. fold (ids l). fold N.
+  match goal with |- closed N (fold_left ?F ?E1 ?E1) => set (F0 := F); set (edges1 := E1) end.
+  assert (He1 : closed N edges1).
+  { unfold edges1. destruct (has_key (a, t) (nl_edges l)).
+    - apply closed_map_first_edge; [assumption|]. intros e He x Hx.
+      apply add_dest_In in Hx as [Hx|Hx]; [apply (closed_to _ _ _ _ Hc He Hx)|].
+      apply Hr. assumption.
+    - apply closed_app. split; [assumption|]. intros e [<-|[]]. simpl.
+      split; [exact Ha|]. intros x Hx. apply Hr. assumption. }
+  clearbody edges1.
+  assert (G : forall es2, closed N es2 -> forall es, closed N es -> closed N (fold_left F0 es2 es)).
+  { induction es2 as [|e r IH]; intros Hc2 es Hes; simpl; [assumption|].
+    apply IH.
+    - intros e' He'. apply Hc2. right. assumption.
+    - unfold F0. destruct (has_key (key_of e) (nl_edges l)).
+      + apply closed_map_first_edge; [assumption|]. intros e0 He0 x Hx.
+        apply add_dest_In in Hx as [Hx|Hx]; [apply (closed_to _ _ _ _ Hes He0 Hx)|].
+        apply (closed_to _ _ _ _ Hc2 (or_introl eq_refl) Hx).
+      + apply closed_app. split; [assumption|]. intros e' [<-|[]]. simpl.
+        exact (Hc2 e (or_introl eq_refl)). }
+  apply G; assumption.
+Qed.
+
+Lemma pool_result_wf p po : Forall wf p -> pop_wf po -> wf (pool_result p po).
+Proof.
+  intros Hp Ho.
+  assert (Hl : wf (nth (po_recv po) p empty_nl)) by (apply Forall_nth_wf; exact Hp).
+  assert (Hstep : wf (step (nth (po_recv po) p empty_nl) (pool_op p po))).
+  { apply step_wf; [exact Hl|].
+    unfold pool_op, pop_wf in *. destruct (po_arg po) as [a|]; [|exact Ho].
+    apply Ho. apply Forall_nth_wf. exact Hp. }
+  unfold pool_result. destruct (po_arg po) as [a|]; [|exact Hstep].
+  destruct (po_op po); try exact Hstep.
+  destruct (Nat.eqb a (po_recv po)); [|exact Hstep].
+  destruct (relate_self_at (nth (po_recv po) p empty_nl) at_ t) as [l'| | |] eqn:E; simpl; try exact Hl.
+  exact (relate_self_wf _ _ _ _ Hl E).
+Qed.
+
 Theorem pool_step_wf p po : Forall wf p -> pop_wf po -> Forall wf (pool_step p po).
 Proof.
   intros Hp Ho. unfold pool_step. apply Forall_set_nth; [exact Hp|].
-  apply step_wf; [apply Forall_nth_wf; exact Hp|].
-  unfold pool_op, pop_wf in *. destruct (po_arg po) as [a|]; [|exact Ho].
-  apply Ho. apply Forall_nth_wf. exact Hp.
+  apply pool_result_wf; assumption.
 Qed.
 
 Theorem pool_ops_preserve_wf pops : forall p, Forall wf p -> Forall pop_wf pops -> Forall wf (fold_left pool_step pops p).
